@@ -6,6 +6,7 @@ import (
 	"encoding/json"
 	"fmt"
 	"os"
+	"path/filepath"
 	"sync"
 
 	"cedarverif/internal/core"
@@ -20,6 +21,11 @@ func run(c *core.Ctx) {
 	c.Assume("the client side is reachable only in local mode through the public API (performAuthentication never passes remote=true); FS_REMOTE_ names on a local exchange are 'either' in FSAuth.tla")
 	c.Assume("filesystem effects are observed by snapshots (before / when the result code is on the wire / after return) of /tmp, /, /var and the sandbox tree; a directory created and removed between two snapshots is not seen")
 	c.Assume("the harness runs with enough privilege to create directories in /tmp; 'directory owned by another uid' needs root")
+	if c.Replay != "" {
+		if a, err := filepath.Abs(c.Replay); err == nil {
+			c.Replay = a // the fixture changes the working directory
+		}
+	}
 	mc, gen := "MC_C18_quick.cfg", "Gen_C18_quick.cfg"
 	if c.Thorough() {
 		mc, gen = "MC_C18.cfg", "Gen_C18_thorough.cfg"
